@@ -36,6 +36,10 @@ type Cycle struct {
 	Keys  []int `json:"keys"`
 	Pull  int   `json:"pull"`
 	Clear bool  `json:"clear"`
+	// EOFOnce: after the Pull that returned io.EOF no further Pull is made in this cycle (otherwise
+	// a second one checks that io.EOF is stable). With AutoClear and no explicit Clear the next
+	// cycle then starts straight after the first io.EOF.
+	EOFOnce bool `json:"eof_once,omitempty"`
 }
 
 type History struct {
@@ -201,6 +205,11 @@ func runCycle(h History, s *Sorter, ci int, outp *Outcome, fail func(string, err
 		out.FirstError, out.ErrorAt = o.FirstError, o.ErrorAt
 		return out, e, true
 	}
+	if mark != nil {
+		if e := mark(fmt.Sprintf("cycle-start %d", ci)); e != nil {
+			return out, e, false
+		}
+	}
 	{
 		c := h.Cycles[ci]
 		// AutoClean removes the whole directory when a drain completes, so it is only
@@ -289,8 +298,10 @@ func runCycle(h History, s *Sorter, ci int, outp *Outcome, fail func(string, err
 				return out, errf("lost-values", "cycle %d (%d pushed, chunk %d, spilled=%v): io.EOF after %d values; missing keys %v", ci, len(c.Keys), h.Chunk, spilled, pulled, clip(missing)), false
 			}
 			// EOF is stable
-			if _, err := s.Pull(); err != io.EOF {
-				return out, errf("eof-not-stable", "cycle %d: Pull after io.EOF returned %v", ci, err), false
+			if !c.EOFOnce {
+				if _, err := s.Pull(); err != io.EOF {
+					return out, errf("eof-not-stable", "cycle %d: Pull after io.EOF returned %v", ci, err), false
+				}
 			}
 			if mark != nil {
 				if e := mark(fmt.Sprintf("drained %d", ci)); e != nil {
